@@ -130,8 +130,8 @@ class Prover:
         self._self_consts = {}
 
     # ------------------------------------------------------------------ analysis per function
-    def analysis(self, fn):
-        if fn.path in self.analyses:
+    def analysis(self, fn, assumed=None):
+        if fn.path in self.analyses and assumed is None:
             return self.analyses[fn.path]
         con = self.C.contract_for(fn.path)
         entry = []
@@ -143,7 +143,7 @@ class Prover:
                     bools.append(("clause", tuple(LN.ccanon(l) for l in r[1])))
                 else:
                     entry.append(r)
-        A = FnAnalysis(self, fn, entry, bools)
+        A = FnAnalysis(self, fn, entry, bools, assumed)
         self.analyses[fn.path] = A
         return A
 
@@ -406,7 +406,26 @@ class Prover:
                              "where": "%s:%d" % (fn.file, t["l"]) if t is not None and "l" in t else "%s:%d" % (fn.file, fn.line), "detail": detail})
 
     def check_fn(self, fn):
-        A = self.analysis(fn)
+        """verify one body; a failed obligation is reported once and then *assumed* for the rest of the body
+        (assume-after-assert), so that one root cause yields one report instead of a cascade"""
+        assumed = {}
+        reported = {}
+        for rnd in range(4):
+            start = len(self.results)
+            self._failed_goals = []
+            self._check_fn_once(fn, assumed if assumed else None)
+            new = self.results[start:]
+            fails = [r for r in new if r["status"] == "violation"]
+            extra = [g for g in self._failed_goals if g[0] not in assumed or g[1] not in assumed[g[0]]]
+            if not extra or rnd == 3:
+                break
+            for (bi, goal) in extra:
+                assumed.setdefault(bi, []).append(goal)
+            del self.results[start:]
+        self._failed_goals = []
+
+    def _check_fn_once(self, fn, assumed):
+        A = self.analysis(fn, assumed)
         F = self.F
         counters = {}
 
@@ -421,6 +440,7 @@ class Prover:
                 continue
             t = b["term"]
             st = A.state_before_term(bi)
+            self._cur_block = bi
             if st is None:
                 continue
             if t["k"] == "assert":
@@ -438,6 +458,7 @@ class Prover:
                 con = self.C.contract_for(t)
                 if con:
                     self._check_requires(A, fn, bi, t, st, con, key_for)
+        self._cur_block = None
         self._check_ensures(A, fn)
 
     def _fmt_goal(self, A, g):
@@ -456,11 +477,16 @@ class Prover:
                 out.append(self._fmt_goal(A, (k, l)))
         return sorted(out, key=len)[:limit]
 
-    def _oblige(self, A, fn, t, st, goals, key, kind, desc):
+    def _oblige(self, A, fn, t, st, goals, key, kind, desc, bi=None):
         ok, bad = self.prove(A, st, goals)
         if ok:
             self.record(fn, key, kind, "proved", desc, t)
         else:
+            if bi is None:
+                bi = self._cur_block
+            if bi is not None and hasattr(self, "_failed_goals"):
+                for g in goals:
+                    self._failed_goals.append((bi, g))
             self.record(fn, key, kind, "violation", "%s: need %s; have %s" % (desc, self._fmt_goal(A, bad), "; ".join(self._have(A, st, bad)) or "nothing relevant"), t)
 
     def _check_assert(self, A, fn, bi, t, st, key_for):
